@@ -491,7 +491,10 @@ def run(ctx, report):
                 t[idx] = dict(inner)
                 inst = '%s: [%s]' % (fname, label)
                 try:
-                    _Ev10({'x86_afs': afs}).call_user(fn, [t])
+                    env10 = {'x86_afs': afs}
+                    for hn_, hf_ in pad.funcs.items():
+                        env10.setdefault(hn_, hf_)
+                    _Ev10(env10).call_user(fn, [t])
                 except _PR10 as e:
                     R10.violation(inst, 'brackets-size:%s:raises:%s' % (fname, e.exc_name), 'the action of `%s` raises %s on [%s]' % (' '.join(alt), e.exc_name, label), where(pad, fn))
                     continue
